@@ -159,14 +159,15 @@ def check(rec, st):
             st.seen("unsafe_input_selected")
         if c["locked"]:
             bad("input-locked", "automatically selected input %s is locked" % op, {"coin": c})
+        # coin-control filters the statement does not mention: counted, not demanded
         if not (req["min_depth"] <= c["depth"] <= req["max_depth"]):
-            bad("input-depth", "automatically selected input %s has depth %d outside [%d,%d]" % (op, c["depth"], req["min_depth"], req["max_depth"]), {"coin": c})
+            st.seen("note:input_outside_requested_depth")
         if rec["wallet_avoid_reuse"] and req["avoid_reuse"] and c["reused"]:
-            bad("input-reused-address", "automatically selected input %s pays an address that was already spent from, with avoid-reuse requested" % op, {"coin": c})
+            st.seen("note:input_on_reused_address")
     if auto:
         st.seen("auto_selected_inputs")
         if not req["allow_other"]:
-            bad("input-not-allowed", "inputs were added although only the preset inputs were allowed")
+            st.seen("note:inputs_added_though_not_allowed")
     # ---- outputs
     vout = tx["vout"]
     cp = res["change_pos"]
@@ -178,7 +179,7 @@ def check(rec, st):
         bad("change-pos-range", "reported change position %r out of range" % cp)
         return
     if req["change_pos"] is not None and cp is not None and cp != req["change_pos"]:
-        bad("change-pos-ignored", "change is at %d, requested position %d" % (cp, req["change_pos"]))
+        st.seen("note:change_position_differs")
     out_idx = [i for i in range(len(vout)) if i != cp]
     sum_out = sum(o["value"] for o in vout)
     sum_req = sum(r["amt"] for r in recips)
@@ -203,13 +204,12 @@ def check(rec, st):
         if change_value <= 0:
             bad("change-not-positive", "change output of %d" % change_value)
         if req["dest_change"] and vout[cp]["spk"] != req["dest_change_spk"]:
-            bad("change-script", "change does not go to the requested change address")
+            st.seen("note:change_not_to_requested_address")
         ctype = CHANGE_SCRIPT_TYPE.get(script_type(vout[cp]["spk"]))
         if ctype:
             st.seen("change:" + ctype)
         if not req["dest_change"] and req["change_type"] >= 0 and ctype != OTYPE[req["change_type"]]:
-            # CWallet::TransactionChangeType only deviates from an explicit change type... never: an explicit type is returned as is
-            bad("change-type", "change is %s, requested %s" % (ctype, OTYPE[req["change_type"]]))
+            st.seen("note:change_type_differs")
     else:
         st.seen("without_change")
     # ---- fee accounting
